@@ -234,6 +234,18 @@ theorem axis_minmax {lo hi sz r : Rat} {n : Int} (hsz : 0 < sz) (hhi : hi = lo +
     · rw [show -sz + (lo + sz) = lo by ring]; apply min_eq_right; linarith
     · rw [show -sz + (lo + sz) = lo by ring]; apply max_eq_left; linarith
 
+theorem min4_x (a w : Rat) : min (min (min a a) w) w = min a w := by
+  rcases le_total a w with h | h <;> simp [h]
+
+theorem max4_x (a w : Rat) : max (max (max a a) w) w = max a w := by
+  rcases le_total a w with h | h <;> simp [h]
+
+theorem min4_y (a v : Rat) : min (min (min a v) v) a = min a v := by
+  rcases le_total a v with h | h <;> simp [h]
+
+theorem max4_y (a v : Rat) : max (max (max a v) v) a = max a v := by
+  rcases le_total a v with h | h <;> simp [h]
+
 theorem footprint_eq (g : GridSpec) (h : g.WF) (k : Int × Int) :
     g.footprint k = ⟨g.xbin.lo id k.1, g.ybin.lo id k.2, g.xbin.hi id k.1, g.ybin.hi id k.2⟩ := by
   have hx := axis_minmax (lo := g.xbin.lo id k.1) (hi := g.xbin.hi id k.1) h.x.sz_pos
@@ -241,7 +253,7 @@ theorem footprint_eq (g : GridSpec) (h : g.WF) (k : Int × Int) :
   have hy := axis_minmax (lo := g.ybin.lo id k.2) (hi := g.ybin.hi id k.2) h.y.sz_pos
     (Bin1D.hi_eq_lo_add _ _) h.szy
   unfold GridSpec.footprint GeoBox.bbox GridSpec.tileGeobox GridSpec.tileTxy applyF
-  simp only [id, zero_mul, mul_zero, add_zero, zero_add]
+  simp only [id, zero_mul, mul_zero, add_zero, zero_add, min4_x, max4_x, min4_y, max4_y]
   rw [hx.1, hx.2, hy.1, hy.2]
 
 theorem rabs_nonneg (r : Rat) : 0 ≤ rabs r := by
@@ -532,4 +544,59 @@ theorem tilesGo_spec (fl : Rnd) (g : GridSpec) : ∀ (ks : List (Int × Int)) (c
     tauto
 
 end GridSpec
+
+/-! ### Python float modulo with a positive modulus (exact arithmetic) -/
+
+theorem pyFloatMod_pos {a b : Rat} (hb : 0 < b) :
+    ∃ r, pyFloatMod id a b = .ok r ∧ 0 ≤ r ∧ r < b ∧ ∃ n : Int, a = (n : Rat) * b + r := by
+  have hq : a = a / b * b := by field_simp
+  have hnb : ¬ b < 0 := not_lt.mpr hb.le
+  unfold pyFloatMod
+  rw [if_neg hb.ne']
+  simp only [id]
+  by_cases h0 : 0 ≤ a / b
+  · rw [if_pos h0]
+    have f1 := Rat.floor_le (a / b)
+    have f2 := Rat.lt_floor_add_one (a / b)
+    push_cast at f2
+    have m0 : 0 ≤ a - ((a / b).floor : Rat) * b := by nlinarith
+    have m1 : a - ((a / b).floor : Rat) * b < b := by nlinarith
+    have hm : ¬ (a - ((a / b).floor : Rat) * b < 0) := not_lt.mpr m0
+    refine ⟨a - ((a / b).floor : Rat) * b, ?_, m0, m1, (a / b).floor, by ring⟩
+    simp [hnb, hm]
+  · rw [if_neg h0]
+    have c1 : a / b ≤ ((a / b).ceil : Rat) := Rat.le_ceil
+    have c2 : ((a / b).ceil : Rat) < a / b + 1 := Rat.ceil_lt
+    have m0 : a - ((a / b).ceil : Rat) * b ≤ 0 := by nlinarith
+    have m1 : -b < a - ((a / b).ceil : Rat) * b := by nlinarith
+    by_cases hz : a - ((a / b).ceil : Rat) * b = 0
+    · refine ⟨0, ?_, le_refl _, hb, (a / b).ceil, by linarith⟩
+      simp [hz]
+    · have hneg : a - ((a / b).ceil : Rat) * b < 0 := lt_of_le_of_ne m0 hz
+      refine ⟨a - ((a / b).ceil : Rat) * b + b, ?_, by linarith, by linarith, (a / b).ceil - 1, by push_cast; ring⟩
+      simp [hz, hnb, hneg]
+
+
+/-- a binning is determined by bin 0 and the left edge of bin 1 -/
+theorem Bin1D.eq_of_bins (b b' : Bin1D) (w : b.WF) (h0 : b.lo id 0 = b'.lo id 0) (h0h : b.hi id 0 = b'.hi id 0)
+    (h1 : b.lo id 1 = b'.lo id 1) : b = b' := by
+  obtain ⟨s, o, d⟩ := b
+  obtain ⟨s', o', d'⟩ := b'
+  simp only [Bin1D.lo_id, Bin1D.hi_id] at h0 h0h h1
+  push_cast at h0 h0h h1
+  have ho : o = o' := by linarith
+  have hs : s = s' := by linarith
+  subst ho hs
+  have hd : (d : Rat) = (d' : Rat) := by
+    have : s * (d : Rat) = s * (d' : Rat) := by linarith
+    exact mul_left_cancel₀ w.sz_pos.ne' this
+  have : d = d' := by exact_mod_cast hd
+  subst this; rfl
+
+theorem GridSpec.rabs_pos_of_sz {n : Int} {r : Rat} (h : 0 < (n : Rat) * rabs r) : 0 < rabs r := by
+  by_contra hc
+  have : rabs r = 0 := le_antisymm (not_lt.mp hc) (GridSpec.rabs_nonneg r)
+  rw [this] at h
+  simp at h
+
 end OdcGeo.C14
